@@ -148,8 +148,8 @@ PROPS = {
         "partial": "panic-freedom of the ~340 rule bodies is not a theorem: it is reduced (proved) to panic-freedom of their stages, every index/slice/assert/deref/division site in them is enumerated from the source on every run and either discharged by a kernel-checked certificate or reviewed, and library calls are assumed (A-LIB); walkers with computed indices are proved total",
     },
     "C01": {
-        "proofs": ["ZlProofs.Props.C01"],
-        "corr": ["framework", "walkers"],  # walkers: the string helpers that loop on their input run under a watchdog (no hang)
+        "proofs": ["ZlProofs.Props.C01", "ZlProofs.Props.C10"],  # C10: registry_readers_readonly — "the registry that was used" is what was registered: no reader keeps a copy of its own
+        "corr": ["framework", "walkers", "regseq"],  # regseq: a lint run between registrations holds one result per lint registered so far  # walkers: the string helpers that loop on their input run under a watchdog (no hang)
         "search": [("sweep", "C01")],
         "trusted_base": TB_COMMON,
         "assumptions": ["no-hang is enforced only as a harness timeout",
@@ -224,7 +224,7 @@ PROPS = {
         "assumptions": ["rests on C05's footprint facts: no lint writes the object or package-level state"],
     },
     "C08": {
-        "proofs": ["ZlProofs.Props.C08"],
+        "proofs": ["ZlProofs.Props.C08", "ZlProofs.Props.C10"],  # C10: the registry model has no hidden state; registry_readers_readonly is that premise about the code
         "corr": ["filter", "regseq"],
         "search": [],
         "trusted_base": TB_COMMON,
@@ -233,14 +233,14 @@ PROPS = {
     },
     "C12": {
         "obligations": [ob_c12_excluded],
-        "proofs": ["ZlProofs.Props.C12"],
+        "proofs": ["ZlProofs.Props.C12", "ZlProofs.Props.C10"],  # C10: registry_readers_readonly (listing and lookups are reads of one state, not caches of it)
         "corr": ["filter", "regseq"],
         "search": ["meta"],
         "trusted_base": TB_COMMON,
         "assumptions": [],
     },
     "C13": {
-        "proofs": ["ZlProofs.Props.C13"],
+        "proofs": ["ZlProofs.Props.C13", "ZlProofs.Props.C10"],  # C10: registry_readers_readonly
         "corr": ["codec", "filter", "regseq"],
         "search": ["meta", "cli"],
         "trusted_base": TB_COMMON,
@@ -263,7 +263,7 @@ PROPS = {
         "assumptions": ["A-RSA: the parser delivers N > 0 and 0 < E < 2^63 exactly as encoded (checked on every kit certificate)"],
     },
     "C18": {
-        "proofs": ["ZlProofs.Props.C18", "ZlProofs.Props.C18Gen"],
+        "proofs": ["ZlProofs.Props.C18", "ZlProofs.Props.C18Gen", "ZlProofs.Props.C05"],  # C05: the table is the table — nothing writes package-level state after init
         "corr": ["tld", "tldgen"],
         "search": [],
         "obligations": [ob_tld],
@@ -272,7 +272,7 @@ PROPS = {
                         "A-TIME: time.Parse(\"2006-01-02\") as modelled by parseDate (validated at every table date)"],
     },
     "C19": {
-        "proofs": ["ZlProofs.Props.C19"],
+        "proofs": ["ZlProofs.Props.C19", "ZlProofs.Props.C05"],  # C05: the reserved-network table is built in init and never written afterwards
         "corr": ["ip"],
         "search": [],
         "obligations": [ob_networks],
@@ -281,7 +281,7 @@ PROPS = {
                         "networks are CIDR networks in canonical form (no host bits in the base address), contiguous masks"],
     },
     "C17": {
-        "proofs": ["ZlProofs.Props.C17", "ZlProofs.Props.Bodies"],  # Bodies: run_similar (order independence of every translated rule)
+        "proofs": ["ZlProofs.Props.C17", "ZlProofs.Props.Bodies", "ZlProofs.Props.C05"],  # C05: no lint writes the object or package-level state  # Bodies: run_similar (order independence of every translated rule)
         "corr": ["names", "bodies"],
         "search": ["c17"],
         "trusted_base": TB_COMMON + ["the hand-written scan classification of list-reading lints in ZlProofs/Props/C17.lean (part of the specification; totality against the extracted readers is a kernel-checked obligation)",
@@ -290,15 +290,15 @@ PROPS = {
         "partial": "that each rule body is the scan its class says is established by classification + permutation search, not by translating the body",
     },
     "C20": {
-        "proofs": ["ZlProofs.Props.C20"],
+        "proofs": ["ZlProofs.Props.C20", "ZlProofs.Props.C05"],  # C05: two rules can only be compared on "the same content" if each is a function of the object (no memory between calls)
         "corr": ["names", "thresholds"],
-        "search": ["c20"],
+        "search": ["c20", "c05"],  # c05: histories, incl. a re-used read buffer — a twin that remembers an earlier answer contradicts its mirror image
         "trusted_base": TB_COMMON + ["the pair table in ZlProofs/Props/C20.lean and harness/pairs.go (transcribed from the property)"],
         "assumptions": [],
         "partial": "per-element agreement of two Go rule bodies is searched (atoms of every GeneralName kind and content class, DN mirroring, corpus, threshold sweeps), not proved; the lifting from elements to lists and the threshold implication are proved",
     },
     "C14": {
-        "proofs": ["ZlProofs.Props.C14"],
+        "proofs": ["ZlProofs.Props.C14", "ZlProofs.Props.C10"],  # C10: registry_readers_readonly; no package-level state behind the encoders (steps_preserve_shared)
         "corr": ["codec", "jsonstr", "regseq"],
         "search": [],
         "trusted_base": TB_COMMON,
